@@ -122,6 +122,32 @@ fn rand_record(r: &mut Rng, big: bool) -> SpanRecord {
     }
 }
 
+/// Now and then one record of a batch gets far more events and/or properties than any default
+/// limit of the target SDKs (128 events / attributes per span in OpenTelemetry): the property
+/// states that all of them are transmitted.
+fn swell(r: &mut Rng, batch: &mut [SpanRecord], max_events: usize, max_props: usize) -> bool {
+    if batch.is_empty() || !r.chance(1, 5) {
+        return false;
+    }
+    let i = r.below(batch.len());
+    let which = r.below(3);
+    if which != 1 {
+        let n = 129 + r.below(max_events.saturating_sub(129).max(1));
+        batch[i].events = (0..n)
+            .map(|k| EventRecord {
+                name: format!("e{}-{}", k, rand_str(r, 6)).into(),
+                timestamp_unix_ns: r.next() % (1 << 62),
+                properties: if r.chance(1, 8) { rand_props(r, 1) } else { vec![] },
+            })
+            .collect();
+    }
+    if which != 0 {
+        let n = 129 + r.below(max_props.saturating_sub(129).max(1));
+        batch[i].properties = (0..n).map(|k| (format!("k{}-{}", k, rand_str(r, 8)).into(), rand_str(r, 20).into())).collect();
+    }
+    true
+}
+
 // ------------------------------------------------------------------------------------------------
 // independent Thrift compact protocol decoder
 
@@ -805,7 +831,10 @@ fn run_jaeger(st: &mut St, r: &mut Rng, n: usize, deadline: Instant) {
             _ => r.below(120),
         };
         let big = r.chance(1, 4);
-        let batch: Vec<SpanRecord> = (0..sz).map(|_| rand_record(r, big)).collect();
+        let mut batch: Vec<SpanRecord> = (0..sz).map(|_| rand_record(r, big)).collect();
+        if !big && swell(r, &mut batch, 300, 250) {
+            st.stat("records_with_over_128_events_or_properties", 1);
+        }
         jaeger_batch(st, &sink, batch, false, &format!("random batch #{}", k));
         st.distinct += 1;
     }
@@ -982,7 +1011,10 @@ fn run_datadog(st: &mut St, r: &mut Rng, n: usize, deadline: Instant) {
             continue;
         }
         let big = r.chance(1, 4);
-        let batch: Vec<SpanRecord> = (0..sz).map(|_| rand_record(r, big)).collect();
+        let mut batch: Vec<SpanRecord> = (0..sz).map(|_| rand_record(r, big)).collect();
+        if swell(r, &mut batch, 400, 600) {
+            st.stat("records_with_over_128_events_or_properties", 1);
+        }
         rep.report(batch.clone());
         st.evals += 1;
         st.distinct += 1;
@@ -1131,7 +1163,10 @@ fn run_otel(st: &mut St, r: &mut Rng, n: usize, deadline: Instant) {
             continue;
         }
         let big = r.chance(1, 4);
-        let batch: Vec<SpanRecord> = (0..sz).map(|_| rand_record(r, big)).collect();
+        let mut batch: Vec<SpanRecord> = (0..sz).map(|_| rand_record(r, big)).collect();
+        if swell(r, &mut batch, 1500, 600) {
+            st.stat("records_with_over_128_events_or_properties", 1);
+        }
         rep.report(batch.clone());
         st.evals += 1;
         st.distinct += 1;
